@@ -385,6 +385,47 @@ def gen_hole_merge(rng, tier):
     return {'kind': 'hole/%s' % which, 'exts': exts, 'dim': dim, 'aff': affarg, 'sdim_arg': None}
 
 
+def systematic_subset_cases(tier):
+    """DETERMINISTIC block: for every axis merge of extlib.systematic_merge_cases() the values its sources define on the
+    output grid (generator truth), stored canonically, and subsets of that extension: one index per dim (quick, every second
+    extension) / every (dim, idx) (thorough), outside the mechanism of N2."""
+    import random as _random
+    rng0 = _random.Random(0)               # encode() only draws when widen > 0
+    seen, out, t = set(), [], 0
+    for c in extlib.systematic_merge_cases():
+        out_shape, sd, aff = expected_merge(c)
+        ax = merge_axis_kind(c['dim'], sd)
+        if ax is None or any(drop_lists(c)[0]):
+            continue
+        k = c['exts'][0]['entries'][0][0] if c['exts'][0]['entries'] else None
+        if k is None:
+            continue
+        f = {}
+        for p in grid(dims({'shape': out_shape, 'sdim': sd})):
+            q = list(p)
+            i = q[ax]
+            q[ax] = 0
+            f[p] = den(c['exts'][i], k, tuple(q))
+        e = encode(rng0, out_shape, sd, f, 0.0)
+        if e is None:
+            continue
+        E = mk_E(out_shape, sd, aff, {k: e})
+        sig = repr((out_shape, sd, E['entries']))
+        if sig in seen:
+            continue
+        seen.add(sig)
+        t += 1
+        if tier == 'quick' and t % 2:
+            continue
+        for dim in range(len(out_shape)):
+            if extlib.n2_vanishing_base(E, dim) is not None:
+                continue
+            idxs = range(out_shape[dim]) if tier != 'quick' else [t // 2 % out_shape[dim]]
+            for idx in idxs:
+                out.append({'kind': 'sys-subset/%s/%s/dim%d' % (extlib.shape_family(out_shape), e[0], dim), 'ext': E, 'dim': dim, 'idx': idx})
+    return out
+
+
 def gen_hole_subsets(rng, tier):
     """Canonical extensions whose shape ends in a singleton axis, every (dim, idx) outside the mechanism of N2."""
     sdim = rng.choice([0, 1, 2])
@@ -421,7 +462,9 @@ class Merge:
     CORR_SHOW = extlib.MergePart.CORR_SHOW
     SHARD = 60
     IMPL_TIMEOUT = 20
-    RULE = ('from_sequence of 2..7 inputs that are the restrictions of total functions on the OUTPUT grid: (a) extlib.gen_merge_case '
+    RULE = ('(0) extlib.systematic_merge_cases(): 637 deterministic one-key merges (every axis kind x 3/4/5-D incl. trailing singletons x '
+            'every valid nondegenerate class x 5 patterns), in every seed; then from_sequence of 2..7 inputs that are the restrictions '
+            'of total functions on the OUTPUT grid: (a) extlib.gen_merge_case '
             '(all five merge dims, 3-5 D incl. (X,Y,Z,1,V), 11 value patterns, keys missing from some inputs, differing slice '
             'normals, widened inputs); (b) structured stream: slice / time / vector merges whose output has >= 3 periods for every '
             'test of _simplify (S,T,V in 2..3, 3..4 inputs), patterns const / per-vector / per-time / per-volume / per-slice / '
@@ -434,7 +477,8 @@ class Merge:
     @staticmethod
     def gen_cases(rng, tier):
         n1, n2, n3 = (260, 420, 120) if tier == 'quick' else (2000, 3500, 1000)
-        cases = [extlib.gen_merge_case(rng, tier) for _ in range(n1)]
+        cases = list(extlib.systematic_merge_cases())        # deterministic block first: every seed contains it
+        cases += [extlib.gen_merge_case(rng, tier) for _ in range(n1)]
         cases += [gen_struct_merge(rng, tier) for _ in range(n2)]
         cases += [gen_hole_merge(rng, tier) for _ in range(n3)]
         return cases
@@ -472,7 +516,8 @@ class Subset:
     CORR_SHOW = extlib.SubsetPart.CORR_SHOW
     SHARD = 100
     IMPL_TIMEOUT = 20
-    RULE = ('get_subset(dim, idx): (a) extlib.gen_subset_case (random valid nondegenerate extensions, canonical and widened); '
+    RULE = ('get_subset(dim, idx): (0) deterministic block: the canonical merged truth of every systematic axis merge, one index '
+            'per dim (quick) / every (dim, idx) (thorough); (a) extlib.gen_subset_case (random valid nondegenerate extensions, canonical and widened); '
             '(b) canonical extensions with structured / one-position-defect patterns (S,T,V in 2..3), EVERY (dim, idx); (c) canonical '
             'extensions whose shape ends in a singleton axis, every (dim, idx) outside the mechanism of N2; the oracle judges every '
             'KEY that sits at its simplest class in the input (get_subset works key by key); non-trivial = some judged key sits in '
@@ -481,7 +526,7 @@ class Subset:
     @staticmethod
     def gen_cases(rng, tier):
         n1, n2, n3 = (150, 45, 12) if tier == 'quick' else (1500, 300, 100)
-        cases = []
+        cases = systematic_subset_cases(tier)
         for _ in range(n1):
             c = extlib.gen_subset_case(rng, tier)
             cases.append(c)
@@ -548,3 +593,9 @@ THEOREMS = list(THEOREMS) + ['SRC_global_slice_subset', 'SRC_changed_class']
 COQ_PROPS = list(COQ_PROPS) + ['Props/SRCstate.v']
 THEOREMS = list(THEOREMS) + ['SRC_change_class', 'SRC_simplify', 'SRC_to_content_holds']
 TABLES = sorted(set(list(TABLES) + ['t_src_state', 't_content', 't_cli']))
+
+
+# source tie, stage D (integrator): _insert_slice TRANSLATED in state-passing form and proved a refinement of insert_slice_k for the five
+# varying classes (Props/SRCinsert.v); the ('global','const') path is translated and executed against the code only
+COQ_PROPS = list(COQ_PROPS) + ['Props/SRCinsert.v']
+THEOREMS = list(THEOREMS) + ['SRC_insert_slice', 'SRC_insert_non_slice', 'SRC_insert_sample']
